@@ -69,6 +69,7 @@ FAMILIES = [
     (r"c12_m3_", "M3", "lexer: odd run of >= 3 quotes + line break opens a multi-line literal ending at the first same run, else Unterminated to EOF", [LEXER + ": text_literal"]),
     # ---- C13
     (r"c13_l1_", "L1", "one real lexing step from an arbitrary state: structural contract K-LEX + boundary/kind == independent reference scanner", [LEXER + ": whitespace_and_token, lex_token_with_map and the sub-lexer of the class"]),
+    (r"c13_k2_", "K2", "hashed keyword lookup == linear scan of the KEYWORDS table for every word of n letters (hits and misses)", [LEXER + ": get_word_token_type, hash_keyword, KEYWORD_LOOKUP_TABLE"]),
     (r"c13_d1_", "D1", "the 256-entry dispatch tables (normal and asm) select the prescribed sub-lexer for every first byte", [LEXER + ": LEXER_MAP, ASM_LEXER_MAP"]),
     (r"c13_w1_", "W1", "count_leading_whitespace == blank count (<= U+0020 and U+3000); eof consumes exactly the trailing blanks", [LEXER + ": count_leading_whitespace, count_unicode_whitespace, eof"]),
     (r"c13_v2_", "V2", "scalar identifier scan == reference", [LEXER + ": find_identifier_end_generic"]),
@@ -99,7 +100,7 @@ c07_i1_toggle_brace_b1_w3 c07_i1_toggle_slashes_b0_w2 c07_i2_region_marking_3tok
 c08_s1_spacing_zero_or_one_3kinds c08_s2_olf_zeroes_spaces_at_line_start c08_s3_apply_solution_counters c08_s4_eof_newline c08_r1_render_soft_w2_w4
 c09_q1_lf_vs_crlf_soft_w2_w4 c09_q3_counters_crlf_eq_lf_nnb
 c10_a1_settings_to_strings c10_a2_new_soft_w0_w3 c10_a2_new_soft_w2_w4 c10_a2_new_hard_w1_w2 c10_a2_new_hard_w5_w0 c10_a3_linewhitespace_len_arith c10_a3_len_equals_emitted_soft_w2_w4 c10_a3_len_equals_emitted_hard_w1_w3 c10_a4_tabs_vs_spaces_tw2_ci2
-c13_d1_dispatch_table_all_bytes c13_w1_blanks_sIs c13_w1_blanks_ssss c13_w1_blanks_sNs c13_v2_scalar_ident_sIs c13_l1_colon_n2 c13_l1_slash_n3 c13_l1_digit_n3 c13_l1_dot_n2 c13_l1_langle_n2 c13_l1_simple_ops_n1 c13_l1_unknown_n1 c13_v1_avx2_eq_ref_len33_off1
+c13_d1_dispatch_table_all_bytes c13_w1_blanks_sIs c13_w1_blanks_ssss c13_w1_blanks_sNs c13_v2_scalar_ident_sIs c13_l1_colon_n2 c13_l1_slash_n3 c13_l1_digit_n3 c13_l1_dot_n2 c13_l1_langle_n2 c13_l1_simple_ops_n1 c13_l1_unknown_n1 c13_v1_avx2_eq_ref_len33_off1 c13_k2_keyword_lookup_eq_scan_len3 c13_l1_word_a_n3
 c12_m1c_lf_basic c12_m1c_cr_only c12_m1c_short_nonblank_line c12_m1c_ignored_untouched
 c15_a_attach_list1_c3 c15_a_attach_list3_c8 c15_a_attach_list4_c9 c15_a_attach_list2_c4 c15_b_relocate_list1_c1 c15_b_relocate_list1_c3 c15_b_relocate_list1_c5 c15_b_relocate_list2_c4 c15_b_relocate_list3_c8 c15_b_relocate_list4_c9 c15_b_relocate_list1_ignored_c3 c15_b_relocate_list1_cmax c15_b_relocate_rewritten_literal_c4 c15_b_relocate_rewritten_literal_c9 c15_a_attach_list8crlf_c2 c15_b_relocate_list8crlf_c2
 c04_cursor_nocontract_list1_c3 c04_cursor_nocontract_list5_c3 c04_cursor_nocontract_list4_c8 c04_cursor_nocontract_list6_c4 c04_cursor_nocontract_list1_cmax
